@@ -57,7 +57,22 @@ if exe:
             jobs.append(dict(exe=exe, args=['-d', '-n%d' % n], data=data,
                              env=env, timeout=120))
             meta.append((name, data, plain, tag, n, env))
-    res = proc.run_many(jobs)
+    # directed schedules: scripted delays at the retrieve / emit jobs of the
+    # host block, the spurious block and their neighbours (positions known
+    # from the generator), default and small granularities, few workers
+    for name, data, plain, tag in streams:
+        for k in range(6 if ck.quick else 40):
+            sc = S.delay_script(rng, name)
+            if not sc:
+                continue
+            env = {'LBZIP2_VERIF_CHECK': '1', 'LBZIP2_VERIF_DELAY': sc}
+            if rng.random() < 0.3:
+                env['LBZIP2_VERIF_OUT_GRANUL'] = str(rng.choice([64, 4096]))
+            n = rng.choice([2, 2, 3, 4])
+            jobs.append(dict(exe=exe, args=['-d', '-n%d' % n], data=data,
+                             env=env, timeout=120))
+            meta.append((name, data, plain, tag + '+delays', n, env))
+    res = proc.run_many(jobs, workers=32)
     for (name, data, plain, tag, n, env), r in zip(meta, res):
         evals += 1
         hist[tag] = hist.get(tag, 0) + 1
